@@ -107,6 +107,13 @@ def option_cases(tier):
         out.append(("C_Sum_omit", None, r))
     out.append(("C_plain", None, None))
     out.append(("S_plain", None, None))
+    # float levels that need seven and more significant digits
+    FL = [1000001.0, 0.1234567, 2.5, 1000002.0][: nl + 1]
+    out.append(("C_plain_float", FL, None))
+    out.append(("S_plain_float", FL, None))
+    for r in FL[:2]:
+        out.append(("T_ref_float", FL, r))
+        out.append(("C_Sum_omit_float", FL, r))
     for r in base:
         out.append(("shared_Sum", None, r))
         out.append(("shared_Treatment", None, r))
@@ -138,13 +145,16 @@ def harness(env, case):
     n = len(kvals)
     x = env.column("x", n)
     order = list(lv) if lv else list(data_levels)
-    kcol = pd.Categorical(kvals, categories=order, ordered=True) if kind.endswith("_ordered") else np.array(kvals, dtype=np.int64)
+    if kind.endswith("_float"):
+        order = sorted(lv)  # no levels= argument: sorted order
+    kcol = pd.Categorical(kvals, categories=order, ordered=True) if kind.endswith("_ordered") else np.array(kvals, dtype=np.float64 if kind.endswith("_float") else np.int64)
     df = env.frame({"y": env.column("y", n), "x": x, "k": kcol})
-    call = {"C_of_C_levels": "C(C(k, levels=lv))", "C_of_T_ref_levels": f"C(T(k, {r}, levels=lv))", "C_of_S_omit_levels": f"C(S(k, {r}, levels=lv))",
+    call = {"C_plain_float": "C(k)", "S_plain_float": "S(k)", "T_ref_float": f"T(k, {r})", "C_Sum_omit_float": f"C(k, Sum({r}))",
+            "C_of_C_levels": "C(C(k, levels=lv))", "C_of_T_ref_levels": f"C(T(k, {r}, levels=lv))", "C_of_S_omit_levels": f"C(S(k, {r}, levels=lv))",
             "T_ref_ordered": f"T(k, {r})", "S_omit_ordered": f"S(k, {r})", "C_Treatment_ref_ordered": f"C(k, Treatment({r}))", "C_plain_ordered": "C(k)", "C_of_T_ref_ordered": f"C(T(k, {r}))",
             "C_levels": "C(k, levels=lv)", "C_levels5": "C(k, levels=lv)", "T_ref_levels": f"T(k, {r}, levels=lv)", "S_omit_levels": f"S(k, {r}, levels=lv)", "T_ref": f"T(k, {r})", "S_omit": f"S(k, {r})",
             "C_Treatment_ref": f"C(k, Treatment({r}))", "C_Sum_omit": f"C(k, Sum({r}))", "C_plain": "C(k)", "S_plain": "S(k)"}[kind]
-    is_sum = kind.startswith("S_") or kind in ("C_Sum_omit", "C_of_S_omit_levels")
+    is_sum = kind.startswith("S_") or kind in ("C_Sum_omit", "C_of_S_omit_levels", "C_Sum_omit_float")
     if is_sum:
         dropped = r if r is not None else order[-1]
     else:
@@ -222,7 +232,8 @@ harness.nl = 3
 # ------------------------------------------------------------------------------- (3) interchange
 CODINGS = {"f": ["f", "C(f)", "T(f, 'b')", "S(f)", "C(f, Sum)", "C(f, Treatment('b'))", "S(f, 'a')"],
            "g": ["g", "C(g)", "T(g, 't')", "S(g)", "C(g, Sum)", "C(g, Treatment('u'))", "S(g, 's')"]}
-TEMPLATES = ["y ~ {f}", "y ~ 0 + {f}", "y ~ {f} + {g}", "y ~ {f} + {g} + {f}:{g}", "y ~ x + {f} + x:{f}", "y ~ 0 + {g} + {f}:{g}", "y ~ {f}:{g}", "y ~ x:{g}", "y ~ {f} + x:{f}:{g}", "y ~ {g}:{f} + {f}"]
+TEMPLATES = ["y ~ {f}", "y ~ 0 + {f}", "y ~ {f} + {g}", "y ~ {f} + {g} + {f}:{g}", "y ~ x + {f} + x:{f}", "y ~ 0 + {g} + {f}:{g}", "y ~ {f}:{g}", "y ~ x:{g}", "y ~ {f} + x:{f}:{g}", "y ~ {g}:{f} + {f}",
+             "y ~ {f}:{g}:h", "y ~ x + x:{f}:{g}:h", "y ~ h + {f}:h:{g}"]
 
 
 def interchange_cases(tier):
@@ -249,7 +260,7 @@ def _work_inter(items):
 
     res = []
     for t, cf, cg in items:
-        df, _ = c03.frame(["f", "g"], ["x"], 5)
+        df, _ = c03.frame(["f", "g"] + (["h"] if re.search(r"\bh\b", t) else []), ["x"], 5)
         f0, f1 = t.format(f="f", g="g"), t.format(f=cf, g=cg)
         try:
             import contextlib, io
